@@ -414,6 +414,125 @@ def segsearch(run, fx, rule='PLANEROUTE'):
             run.held(rule, inst, fn.where(), '%d order types of (table, character, range hint)' % cases)
 
 
+def agree(run, fx, rule='PLANEROUTE'):
+    """"the directly parsed and the cached (gr_face_cacheCmap) lookups agree on every code point", by bounded abstract execution
+    (rules/ordint.py): for every small format 4 table (1..3 segments over the code points 0..9, plus the 0xFFFF terminator the format
+    requires) and every small format 12 table (0..2 groups straddling / above U+FFFF), the two cache_subtable fills are interpreted with
+    the start / limit arguments CachedCmap::CachedCmap passes them (read from its call sites), with CmapSubtable{4,12}NextCodepoint and
+    CmapSubtable{4,12}Lookup inlined from their own CFGs; then CachedCmap::operator[] and DirectCmap::operator[] are interpreted for
+    every code point near the mapped ranges and must give the same glyph."""
+    import itertools
+    from . import ordint as O
+    T4 = 'graphite2::TtfUtil::Sfnt::CmapSubTableFormat4::'
+    TB = 'graphite2::TtfUtil::Sfnt::CmapSubTable::'
+    T12 = 'graphite2::TtfUtil::Sfnt::CmapSubTableFormat12::'
+    G12 = T12 + '(anonymous struct)::'
+    CC, DC = 'graphite2::CachedCmap::', 'graphite2::DirectCmap::'
+    ctor = fx.inl(fx.one('graphite2::CachedCmap::CachedCmap'))
+    fills = {}
+    for e in calls_in(ctor):
+        if (e.get('fq') or '') == 'cache_subtable' and len(e.get('args') or []) == 4:
+            fmt = 12 if 'Subtable12' in (e.get('fn') or '') else 4
+            st, li = ctor.strip_all_casts(e['args'][2]).get('v'), ctor.strip_all_casts(e['args'][3]).get('v')
+            key = e.get('fm')
+            fills[fmt] = (key, st, li)
+    if set(fills) != {4, 12} or any(v[1] is None or v[2] is None for v in fills.values()):
+        run.broken(rule, 'cached and direct lookups agree', 'the two cache_subtable calls of CachedCmap::CachedCmap (with constant start / limit) were not found', ctor.where())
+        return
+    cop = fx.one('graphite2::CachedCmap::operator[]')
+    dop = fx.one('graphite2::DirectCmap::operator[]')
+
+    def fn_of(key):
+        return fx.fn(key if key in fx.raw['functions'] else '%s@CmapCache.cpp' % key)
+
+    def mk4(segs):
+        segs = list(segs) + [(0xFFFF, 0xFFFF, 1)]           # (start, end, idDelta); the terminator maps 0xFFFF to glyph 0
+        n = len(segs)
+        flat = O.Vec([e_ for s_, e_, d_ in segs] + [0] + [s_ for s_, e_, d_ in segs] + [d_ & 0xFFFF for s_, e_, d_ in segs] + [0] * n)
+        tab = O.Rec()
+        for fld in ('search_range', 'entry_selector', 'range_shift'):
+            tab[T4 + fld] = 0
+        tab[T4 + 'seg_count_x2'] = 2 * n
+        tab[T4 + 'end_code'] = O.It(flat, 0)
+        tab[TB + 'format'], tab[TB + 'length'], tab[TB + 'language'] = 4, 16 + 8 * n, 0
+        return tab
+
+    def mk12(groups):
+        tab = O.Rec()
+        gv = O.Vec()
+        for a, b, g in groups:
+            r_ = O.Rec()
+            r_[G12 + 'start_char_code'], r_[G12 + 'end_char_code'], r_[G12 + 'start_glyph_id'] = a, b, g
+            gv.items.append(r_)
+        if not groups:
+            gv.items.append(O.Rec({G12 + 'start_char_code': 0x10FFFF, G12 + 'end_char_code': 0x10FFFF, G12 + 'start_glyph_id': 0}))
+        for fld in ('format', 'length', 'language'):
+            tab[T12 + fld] = 0
+        tab[T12 + 'num_groups'] = len(groups)
+        tab[T12 + 'group'] = O.It(gv, 0)
+        return tab
+
+    def segsets(maxn, lo, hi):
+        pts = list(range(lo, hi + 1))
+        for n in range(1, maxn + 1):
+            for cut in itertools.combinations(pts, 2 * n):
+                ok = all(cut[2 * k] <= cut[2 * k + 1] for k in range(n)) and all(cut[2 * k + 1] < cut[2 * k + 2] for k in range(n - 1))
+                if ok:
+                    yield [(cut[2 * k], cut[2 * k + 1]) for k in range(n)]
+            # single code point segments too
+            for single in itertools.combinations(pts, n):
+                yield [(c_, c_) for c_ in single]
+    zero_alloc = lambda it, f, e, obj, args: O.It(O.Vec([0] * it.rv(args[0])), 0)
+    cases, prob = 0, None
+    f4, f12 = fn_of(fills[4][0]), fn_of(fills[12][0])
+    try:
+        bmp_sets = [sg for sg in segsets(2, 0, 6)]
+        smp_sets = [[]] + [sg for sg in segsets(1, 0xFFFE, 0x10002)] + [[(0x10000, 0x10001), (0x10003, 0x10004)]]
+        for k, bmp in enumerate(bmp_sets):
+            for smp in (smp_sets if k % 7 == 0 else smp_sets[:2]):
+                t4 = mk4([(a, b, 10 - a) for a, b in bmp])         # glyph = code point + 10 - start
+                t12 = mk12([(a, b, 100 + j * 20) for j, (a, b) in enumerate(smp)]) if smp else None
+                blocks = O.Vec([O.Ptr(None) for _ in range(0x1100 if t12 is not None else 0x100)])
+                cc = O.Rec()
+                cc[CC + 'm_blocks'] = O.It(blocks, 0)
+                cc[CC + 'm_isBmpOnly'] = t12 is None
+                dc = O.Rec()
+                dc[DC + '_cmap'] = O.Rec()
+                dc[DC + '_bmp'] = O.Ptr(t4)
+                dc[DC + '_smp'] = O.Ptr(t12) if t12 is not None else O.Ptr(None)
+                desc = 'format 4 segments %s%s' % (bmp, (', format 12 groups %s' % [('%X' % a, '%X' % b) for a, b in smp]) if smp else ', no format 12 subtable')
+                nat = {'graphite2::grzeroalloc': zero_alloc}
+                try:
+                    if t12 is not None:
+                        it = O.Interp(fx, natives=nat)
+                        it.MAX_STEPS = 60000
+                        it.call(f12, None, [O.It(blocks, 0), O.Ptr(t12), fills[12][1], fills[12][2]])
+                    it = O.Interp(fx, natives=nat)
+                    it.MAX_STEPS = 60000
+                    it.call(f4, None, [O.It(blocks, 0), O.Ptr(t4), fills[4][1], fills[4][2]])
+                    probe = sorted(set(range(0, 9)) | {0xFFFD, 0xFFFE, 0xFFFF, 0x10000, 0x10001, 0x10002, 0x10003, 0x10004, 0x10005, 0x10FFFF})
+                    for c_ in probe:
+                        a_ = O.Interp(fx, natives=nat).call(cop, cc, [c_])
+                        b_ = O.Interp(fx, natives=nat).call(dop, dc, [c_])
+                        cases += 1
+                        if a_ != b_:
+                            prob = '%s: U+%04X maps to glyph %r through the cached cmap and to %r through the direct one' % (desc, c_, a_, b_)
+                            break
+                except O.Violation as v:
+                    prob = '%s: %s (%s)' % (desc, v.what, v.loc)
+                if prob:
+                    break
+            if prob:
+                break
+    except AnalysisBroken as ex:
+        run.broken(rule, 'cached and direct lookups agree', str(ex), ctor.where())
+        return
+    if prob:
+        run.violated(rule, 'cached and direct lookups agree', ctor.where(), prob)
+    else:
+        run.held(rule, 'cached and direct lookups agree', ctor.where(), '%d code point lookups over %d small format 4 tables x format 12 tables, both fills interpreted' % (cases, len(bmp_sets)))
+
+
 def cmapbound(run, fx):
     op = fx.one('graphite2::CachedCmap::operator[]')
     usv = op.f['params'][0]['n']
@@ -592,5 +711,6 @@ def run(run):
     fallback(run, fx)
     lookupfirst(run, fx)
     segsearch(run, fx)
+    agree(run, fx)
     cmapbound(run, fx)
     narrowread(run, fx)
